@@ -698,7 +698,47 @@ func c20Payment(c *core.Ctx) {
 		}
 		accs := FindAccums(p, fd)
 		if len(accs) == 0 {
-			c.Ob("C20-R5", fd.Name()+"#accumulators", fd.Decl.Pos(), false, "no amount accumulation found")
+			// the accumulation may live in a helper the loop calls with the line's amount
+			// (sums.addTotal(l.Total)): the helper's accumulation is judged, and the call must be
+			// executed for every line
+			delegated := 0
+			info := fd.Pkg.TypesInfo
+			ast.Inspect(fd.Decl.Body, func(n ast.Node) bool {
+				es, ok := n.(*ast.ExprStmt)
+				if !ok {
+					return true
+				}
+				call, ok := es.X.(*ast.CallExpr)
+				if !ok {
+					return true
+				}
+				g := core.Callee(info, call)
+				if g == nil || g.Pkg() != fd.Obj.Pkg() {
+					return true
+				}
+				gfd := p.DeclOf(g)
+				if gfd == nil {
+					return true
+				}
+				for i, a := range FindAccums(p, gfd) {
+					delegated++
+					key := fmt.Sprintf("%s→%s#%s%d:%s", fd.Name(), g.Name(), strings.ToLower(a.Op), i+1, types.ExprString(a.Dest))
+					base := nilTestOfOperandsIn(fd.Pkg.TypesInfo, fd.Decl.Body, es)
+					if why := everyIterationOf(p, info, fd.Decl.Body, es, base, spec.recv == "PaymentLine"); why != "" {
+						c.Ob("C20-R5", key+"#every-line", es.Pos(), false, "the accumulation is not executed for every line: "+why)
+					}
+					gbase := nilTestOfOperandsIn(gfd.Pkg.TypesInfo, gfd.Decl.Body, a.Assign)
+					if why := everyIterationOf(p, gfd.Pkg.TypesInfo, gfd.Decl.Body, a.Assign, gbase, true); why != "" {
+						c.Ob("C20-R5", key+"#every-call", a.Assign.Pos(), false, "the helper does not accumulate on every call: "+why)
+					}
+					c.Ob("C20-R5", key, a.Assign.Pos(), a.Matched,
+						fmt.Sprintf("%s = %s.%s(%s) without first raising the accumulator's precision to the addend's: the addend is rounded to the accumulator's precision and the total depends on which line comes first", types.ExprString(a.Dest), types.ExprString(a.Dest), a.Op, types.ExprString(a.Addend)))
+				}
+				return true
+			})
+			if delegated == 0 {
+				c.Ob("C20-R5", fd.Name()+"#accumulators", fd.Decl.Pos(), false, "no amount accumulation found")
+			}
 		}
 		for i, a := range accs {
 			// PaymentLine.calculate is itself the per-line step
@@ -730,6 +770,9 @@ func c20Payment(c *core.Ctx) {
 		return true
 	})
 	if acc == nil {
+		if c20TaxFoldDelegated(c, fd) {
+			return
+		}
 		c.Ob("C20-R6", fd.Name()+"#tax", fd.Decl.Pos(), false, "the payment's Tax is not assigned from a local accumulator")
 		return
 	}
@@ -907,5 +950,95 @@ func flagSeed(info *types.Info, body *ast.BlockStmt, cond ast.Expr, a Accum) boo
 		}
 		return false
 	}
+	return true
+}
+
+// c20TaxFoldDelegated: pmt.Tax is assigned from a member of a local structure
+// (`pmt.Tax = sums.taxes`) that a method of that structure folds:
+// `m = m.Merge(x)` with the seed `m = x`, called from the loop with a clone of
+// the recalculated line document's summary.
+func c20TaxFoldDelegated(c *core.Ctx, fd *core.FuncDecl) bool {
+	p := c.P
+	info := fd.Pkg.TypesInfo
+	recv := recvVar(fd)
+	var member *types.Var
+	var holder *types.Var
+	ast.Inspect(fd.Decl.Body, func(n ast.Node) bool {
+		if as, ok := n.(*ast.AssignStmt); ok && len(as.Lhs) == 1 && len(as.Rhs) == 1 && core.IsFieldOfVar(info, as.Lhs[0], recv, "Tax") {
+			if f := core.FieldOf(info, as.Rhs[0]); f != nil {
+				if se, ok := ast.Unparen(as.Rhs[0]).(*ast.SelectorExpr); ok {
+					member, holder = f, core.VarOf(info, se.X)
+				}
+			}
+		}
+		return true
+	})
+	if member == nil || holder == nil {
+		return false
+	}
+	okMerge, okSeed, okClone, okCalc := false, false, false, false
+	for _, call := range core.CallsTo(info, fd.Decl.Body, func(f *types.Func) bool { return f.Pkg() == fd.Obj.Pkg() }) {
+		re := core.RecvExpr(call)
+		if re == nil || core.RootVar(info, re) != holder {
+			continue
+		}
+		g := core.Callee(info, call)
+		gfd := p.DeclOf(g)
+		if gfd == nil {
+			continue
+		}
+		ginfo := gfd.Pkg.TypesInfo
+		sig := g.Type().(*types.Signature)
+		folds := false
+		ast.Inspect(gfd.Decl.Body, func(n ast.Node) bool {
+			as, ok := n.(*ast.AssignStmt)
+			if !ok || len(as.Lhs) != 1 || len(as.Rhs) != 1 || core.FieldOf(ginfo, as.Lhs[0]) != member {
+				return true
+			}
+			rhs := ast.Unparen(as.Rhs[0])
+			if mc, ok := rhs.(*ast.CallExpr); ok {
+				if fn := core.Callee(ginfo, mc); fn != nil && core.IsFunc(fn, core.ModPath+"/tax", "Total", "Merge") && core.FieldOf(ginfo, core.RecvExpr(mc)) == member && len(mc.Args) == 1 {
+					if v := core.VarOf(ginfo, mc.Args[0]); v != nil && sig.Params().Len() == 1 && v == sig.Params().At(0) {
+						okMerge, folds = true, true
+					}
+				}
+				return true
+			}
+			if v := core.VarOf(ginfo, rhs); v != nil && sig.Params().Len() == 1 && v == sig.Params().At(0) {
+				okSeed = true
+			}
+			return true
+		})
+		if !folds || len(call.Args) != 1 {
+			continue
+		}
+		// what is handed in: a clone of the line document's summary, after its recalculation
+		arg := ast.Unparen(call.Args[0])
+		if v := core.VarOf(info, arg); v != nil {
+			ld := core.NewLocalDefs(info, fd.Decl.Body)
+			if ds := ld.All(v); len(ds) == 1 && ds[0].RHS != nil {
+				arg = ast.Unparen(ds[0].RHS)
+			}
+		}
+		if cl, ok := arg.(*ast.CallExpr); ok {
+			if fn := core.Callee(info, cl); fn != nil && core.IsFunc(fn, core.ModPath+"/tax", "Total", "Clone") {
+				if f := core.FieldOf(info, core.RecvExpr(cl)); f != nil && f.Name() == "Tax" {
+					okClone = true
+					for _, cc := range core.CallsTo(info, fd.Decl.Body, func(f *types.Func) bool {
+						return core.IsFunc(f, core.ModPath+"/org", "DocumentRef", "Calculate")
+					}) {
+						if cc.Pos() < cl.Pos() {
+							okCalc = true
+						}
+					}
+				}
+			}
+		}
+	}
+	if !okMerge {
+		return false
+	}
+	c.Ob("C20-R6", fd.Name()+"#tax-fold", fd.Decl.Pos(), okMerge && okSeed && okClone && okCalc,
+		fmt.Sprintf("the payment's tax summary is not the Merge fold over clones of each recalculated line document summary (merge=%v seed=%v clone=%v recalculated=%v)", okMerge, okSeed, okClone, okCalc))
 	return true
 }
